@@ -35,7 +35,19 @@ def run_job(job, ref):
     else:
         sc = job["scenario"]
     oracles = job.get("oracles") or sorted(executor.ORACLES_OF[sc["property"]])
-    out = executor.run_scenario(sc, oracles=oracles, ref=ref, suppress=make_suppress(job.get("known")))
+    import hashlib
+
+    sc_digest = hashlib.sha256(json.dumps(sc, sort_keys=True, default=repr).encode()).hexdigest()[:20]
+    out = executor.run_scenario(sc, oracles=oracles, ref=ref, suppress=make_suppress(job.get("known")),
+                                dump=bool(job.get("dump")))
+    out["scenario_digest"] = sc_digest
+    if out.get("dump") is not None:
+        import base64
+        import pickle
+
+        out["dump"] = base64.b64encode(pickle.dumps(out["dump"], protocol=4)).decode()
+    else:
+        out.pop("dump", None)
     out["wall"] = round(time.perf_counter() - t0, 4)
     out["ref_requests"] = ref.requests
     out["run_seed"] = sc.get("run_seed")
